@@ -97,7 +97,7 @@ Definition desc_wf (m : key -> mval) (d : desc) : Prop :=
       count_of m d * d_esize d < 4294967296 /\
       ~ In (d_count d, O) (parts d) /\
       (forall k, In k (parts d) -> count_of m d * d_esize d / nparts d <= len (vbytes (m k)))
-  | DPointerFixed => forall b, m (d_member d, O) = MP (Some b) -> d_esize d <= len b
+  | DPointerFixed => 0 < d_esize d /\ forall b, m (d_member d, O) = MP (Some b) -> d_esize d <= len b
   | DOther | DEnd => True
   | dt => forall sz, simple_size psz dt = Some sz -> sz <= len (vbytes (m (d_member d, O)))
   end.
@@ -165,7 +165,10 @@ Proof.
     rewrite (apply_writes_map (fun k => MP (Some (take q (g k)))) (parts d) m' k Hnd Hk);
     cbn [vbytes]; apply take_take).
   destruct (m (d_member d, 0%nat)) as [|[b|]] eqn:Em; try discriminate Hw.
+  destruct Hwf as [Hes Hwf]. specialize (Hwf b eq_refl).
   inversion Hw; subst f; cbn [f_payload f_type apply_writes fold_left fst snd].
+  rewrite len_take by auto.
+  destruct (d_esize d =? 0) eqn:E0; [apply N.eqb_eq in E0; lia|].
   unfold upd. rewrite key_eqb_refl. rewrite take_take. reflexivity.
 Qed.
 
